@@ -103,6 +103,28 @@ def build(repo, findings):
         C('C10 all-above-taken', 'forall|k: ShellFd| candidate_fd_num < k <= 63 ==> params.open_files@.contains_key(k)'),
     ], decreases='candidate_fd_num')
     u.add(fs)
+    # ---- `N>&M` / `N<&M` with M a number: the file is the one M names for THIS command (a close of M on the command counts), R6 slice
+    dp = interp.slice('setup_redirect', r'^\s*let source_fd_num = expanded\s*$', r'^\s*params\.open_files\.set_fd\(fd_num, target_file\);',
+                      'fn duplicate_from_descriptor(shell: &Shell, params: &mut ExecutionParameters, expanded: &String, fd_num: ShellFd) -> Result<(), error::Error>',
+                      'duplicate_from_descriptor')
+    dp.r1()
+    dp.resub(r'expanded\s*\.parse::<ShellFd>\(\)\s*\.map_err\(\|_\| error::ErrorKind::InvalidRedirection\)\?', 'parse_shell_fd(expanded)?', 'R14', 'str::parse::<ShellFd>().map_err(..)? -> stub (the number the digits spell, or an error)', count=1)
+    dp.resub(r'return Err\(error::ErrorKind::BadFileDescriptor\(source_fd_num\)\.into\(\)\);', 'return Err(bad_fd_error(source_fd_num));', 'R14', 'ErrorKind::..into() -> stub', count=None)
+    dp.resub(r'\n\}$', '\n    Ok(())\n}', 'R6', 'wrapper epilogue `Ok(())`', count=1)
+    dp.sig(ret='res', ensures=[
+        C('C10 a-duplicate-names-the-file-the-source-descriptor-has-for-this-command-a-descriptor-closed-for-it-has-none', '''match fd_number_spec(expanded@) {
+    None => res is Err && final(params).open_files@ == old(params).open_files@,
+    Some(src) => match layer_lookup(old(params).open_files@, shell.persistent()@, src) {
+        Some(file) => res is Ok && final(params).open_files@ == old(params).open_files@.insert(fd_num, Some(file)),
+        None => res is Err && final(params).open_files@ == old(params).open_files@,
+    },
+}'''),
+    ])
+    u.raw('''pub uninterp spec fn fd_number_spec(digits: Seq<char>) -> Option<ShellFd>;
+#[verifier::external_body] pub fn parse_shell_fd(s: &String) -> (r: Result<ShellFd, error::Error>) ensures (r is Ok) == (fd_number_spec(s@) is Some), r is Ok ==> r->Ok_0 == fd_number_spec(s@)->Some_0 { unimplemented!() }
+#[verifier::external_body] pub fn bad_fd_error(fd: ShellFd) -> error::Error { unimplemented!() }
+''')
+    u.add(dp)
     oo = interp.slice('setup_redirect', r'^\s*let default_fd_if_unspecified = get_default_fd_for_redirect_kind\(kind\);',
                       r'^\s*let fd_num = specified_fd_num\.unwrap_or\(default_fd_if_unspecified\);',
                       'fn redirect_open_options(shell: &Shell, kind: &ast::IoFileRedirectKind, options: &mut OpenOptions, expanded_file_path: &PathBuf, specified_fd_num: &Option<ShellFd>) -> ShellFd',
@@ -257,7 +279,7 @@ impl HeredocExpander {
 ''')
     u.raw(FOOTER)
     u.assume('axiom', 'str::starts_with / ends_with at a char pattern mean first / last character equals it (std documented behaviour)')
-    u.assume('assume_specification', 'str::starts_with / ends_with (generic Pattern) are uninterpreted functions of text and pattern; Option::map_or(d, f) is d on None and f(x) on Some(x) (std documented behaviour)')
+    u.assume('assume_specification', 'str::starts_with / ends_with (generic Pattern) are uninterpreted functions of text and pattern; Option::map_or(d, f) is d on None and f(x) on Some(x), Option::or_else(o, f) is o when Some else f() (std documented behaviour)')
     u.assume('external_body', 'OpenFile and error::Error are opaque; From<ErrorKind> for Error is a stub; OpenFile::clone returns an equal value (it dups the descriptor); Shell::persistent_open_files is a view of persistent()')
     u.assume('external_body', 'basic_expand_word / basic_expand_heredoc_word (uninterpreted results) and setup_open_file_with_contents (a pipe holding exactly the text) are stubs; the here-document tokenizer (delimiter recognition, tab stripping) is NOT verified')
     u.assume('uninterp', 'expand_word_spec, expand_heredoc_spec, OpenFile::contents, Word::flat, Shell::persistent, Shell::opts, PathBuf::is_regular, Error::is_unimplemented')
